@@ -16,7 +16,7 @@ import (
 // grammar theorem's claim on it: verdict idempotent => the tree holds no now() / uuid() call).
 //
 // op:   <prefix encoding …> B:<hex of the table name> X:<hex of the term's text>
-// real: toks=<kind:idhex,…> idem=<1|0|1e|0e|panic> upd=<the same for UPDATE <table> SET c = <text> WHERE k = 1>
+// real: toks=<kind:idhex,…> idem=<1|0|1e|0e|panic> upd=<the same for UPDATE <table> SET c = <text> WHERE k = 1> whr=<… for the term inside a WHERE clause> bat=<… inside the second child of a batch>
 
 func init() { streams["ast"] = stream{gen: genAst, run: runAst} }
 
@@ -51,7 +51,9 @@ func runAst(op string) (out string) {
 		toks = append(toks, fmt.Sprintf("%d:%s", t.Kind, hex.EncodeToString([]byte(t.ID))))
 	}
 	return "toks=" + strings.Join(toks, ",") + " idem=" + idemOne("INSERT INTO "+table+" (c) VALUES ("+text+")") +
-		" upd=" + idemOne("UPDATE "+table+" SET c = "+text+" WHERE k = 1")
+		" upd=" + idemOne("UPDATE "+table+" SET c = "+text+" WHERE k = 1") +
+		" whr=" + idemOne("UPDATE "+table+" SET c = ? WHERE k = "+text+" AND j IN (1, "+text+")") +
+		" bat=" + idemOne("BEGIN BATCH INSERT INTO "+table+" (c) VALUES (1) USING TTL 5; INSERT INTO "+table+" (c) VALUES ("+text+") APPLY BATCH")
 }
 
 var astIdents = []string{"k", "v", "col1", "f", "ks", "now", "NOW", "NoW", "uuid", "UUID", "system", "SYSTEM", "System", "frozen", "list", "map", "int", "text",
